@@ -486,6 +486,44 @@ package badger
 //@   light
 //@   assert[version-stamped] before call SetEntry : arg1 == e && e.version == ts
 
+// ---- from commit to the write channel and back (C03, C28) ----
+
+// sendToWriteCh: refused while writes are blocked; the batch limits are checked on all entries
+// before anything is queued; the queued request carries exactly the caller's entries.
+//@ func (*DB).sendToWriteCh
+//@   props C28 C03
+//@   light
+//@   loop 1 invariant[all-counted] count == int64(rangeindex + 1) && rangeindex < len(entries)
+//@   assert[blocked-rejects] before return#1 : result0 == nil && result1 == ErrBlockedWrites
+//@   assert[too-big-rejects] before return#2 : result0 == nil && result1 == ErrTxnTooBig && (count >= db.opt.maxBatchCount || size >= db.opt.maxBatchSize)
+//@   assert[limits-before-queueing] before call Get : count == int64(len(entries)) && count < db.opt.maxBatchCount && size < db.opt.maxBatchSize
+//@   assert[request-carries-entries] before return#3 : result0 == req && req.Entries == entries && result1 == nil
+
+// The function commitAndSend returns: the commit timestamp is marked done only after the
+// request was applied (or failed), and the request's error is the commit's result.
+//@ func (*Txn).commitAndSend.ret
+//@   props C03 C34
+//@   light
+//@   assert[done-after-wait] before call doneCommit : called(Wait#1) && arg0 == orc && arg1 == commitTs
+//@   assert[request-error-returned] before return : result == ret(Wait#1) && called(doneCommit#1)
+
+// Commit: a transaction without writes commits trivially; otherwise the result is that of the
+// commit callback (i.e. of applying the request); the transaction is discarded in every case.
+//@ func (*Txn).Commit
+//@   props C03
+//@   light
+//@   assert[precheck-first] before call commitAndSend : called(commitPrecheck#1) && ret(commitPrecheck#1) == nil && arg0 == txn
+//@   assert[send-error-returned] before return#3 : result == ret1(commitAndSend#1) && result != nil
+//@   assert[waits-for-apply] before return#4 : called(txnCb#1) && result == ret(txnCb#1)
+
+// runTxnCallback: the user's callback gets the send error, or the result of the commit
+// callback, exactly once.
+//@ func runTxnCallback
+//@   props C03
+//@   light
+//@   assert[send-error-to-user] before call user#1 : arg0 == cb.err && cb.err != nil
+//@   assert[commit-result-to-user] before call user#2 : arg0 == ret(commit#1) && cb.err == nil
+
 // ---- managed mode (C36) ----
 
 //@ func (*DB).NewTransactionAt
